@@ -1,4 +1,4 @@
-(* Model of the command-line front end of shoot (C16, reused by C17/C18):
+(* Model of the command-line front end of shoot (C16):
 
      internal/shoot/generatorbase.go  ParseCommonFlags, fileName, LoadPackage
                                       (the findCmdLine scan), TestFile, getGoFile,
@@ -296,9 +296,9 @@ Inductive pres :=
 | PUsage2                          (* usage, exit 2 *)
 | PExit0.                          (* -h: usage, exit 0 *)
 
-(* ParseCommonFlags up to (and including) the construction of CommonFlags; the
-   checks that touch the file system (dir / file existence) are in Fail.v.
-   args = the arguments after the subcommand name *)
+(* ParseCommonFlags up to (and including) the construction of CommonFlags; its
+   two checks on -file (extension, existence) are [check_file_arg] below; the
+   [dir] argument is assumed to exist.  args = the arguments after the subcommand name *)
 Definition parse_common (c : subcmd) (args : list string) : pres :=
   match args with
   | [] => PUsage2                                       (* len(flag.Args()) <= 1 *)
